@@ -247,7 +247,7 @@ theorem correlogramsFl_as_run (times : List Rat) (sc : List Int) (ids : Option (
     correlogramsFl times sc ids rate bin window sym =
       correlogramsOfInts ((prodsFl rate times).map truncInt) (binsizeOfFl rate bin) (winsizeBinsFl window bin)
         times sc ids rate sym :=
-  ⟨Lemmas.samplesOfFl_eq_prods rate times, by rw [← Lemmas.samplesOfFl_eq_prods]; rfl⟩
+  Lemmas.correlogramsFl_as_run times sc ids rate bin window sym
 
 /-- a bin shorter than one sample (after the float product and truncation) fails `assert binsize >= 1` -/
 theorem correlogramsFl_rejects (times : List Rat) (sc : List Int) (ids : Option (List Nat)) (rate bin window : Rat)
@@ -290,8 +290,7 @@ theorem correlogramsFl_seconds (times : List Rat) (sc : List Int) (ids : List Na
     correlogramsFl times sc (some ids) rate bin window sym =
       some (if sym then symmetrize (specSeconds times sc ids bin (halfOf window bin))
             else specSeconds times sc ids bin (halfOf window bin)) :=
-  (Lemmas.correlogramsFl_eq_Q times sc (some ids) rate bin window T B g x sym).trans
-    (Lemmas.correlogramsQ_eq times sc ids rate bin window T B g hsorted hlen hdom sym)
+  Lemmas.correlogramsFl_seconds times sc ids rate bin window T B g x hsorted hlen hdom sym
 
 /-! Non-vacuity.  `d01` = the double 0.1, `d005` = 0.05, `d0001` = 0.001 as exact rationals. -/
 /-- bin 0.1 s, window 2 s: the exact quotient of the doubles is below 10 (19 bins), the float quotient is 10
